@@ -58,15 +58,25 @@ pub fn render(e: &Value, idx: usize, rng: &mut Rng) -> Elem {
     // abstract body length 2 = short body, 3 = body longer than the BufReader capacity (8192)
     let bl = match abs_bl { 0 => 0, 2 => rng.range(1, 60), 9 => rng.range(6 << 20, 8 << 20), _ => rng.range(8192, 20000) }; // 9: a body of several MiB (echoed back: the response exceeds the socket buffers)
     let conn_line = match conn.as_str() {
-        "ka" => format!("Connection: {}\r\n", rng.pick(&["keep-alive", "Keep-Alive", "KEEP-ALIVE", "keep-Alive"])),
-        "close" => format!("Connection: {}\r\n", rng.pick(&["close", "Close"])),
+        // field names are case-insensitive too (L4)
+        "ka" => format!("{}: {}\r\n", rng.pick(&["Connection", "connection", "CONNECTION", "cOnNeCtIoN"]), rng.pick(&["keep-alive", "Keep-Alive", "KEEP-ALIVE", "keep-Alive"])),
+        "close" => format!("{}: {}\r\n", rng.pick(&["Connection", "connection", "CONNECTION"]), rng.pick(&["close", "Close"])),
         _ => String::new(),
     };
     let query = if rng.chance(1, 4) { "?a=1&b=%20" } else { "" };
     if wf {
         let mut h = format!("{} {}{} HTTP/{}\r\nHost: localhost\r\n{}", m, path_of(&tgt), query, ver, conn_line);
         if rng.chance(1, 3) { h.push_str("X-Pad: abcdefghijklmnopqrstuvwxyz\r\n"); }
-        if bl > 0 || (abs_bl == 0 && m != "GET" && rng.chance(1, 2)) { h.push_str(&format!("Content-Length: {}\r\n", bl)); }
+        // for the "long body" class, one time in three make head + body end exactly at / one byte around the
+        // parser's 8 KiB read-ahead boundary (first byte + 8192 buffered)
+        let mut bl = bl;
+        if abs_bl == 3 && rng.chance(1, 3) {
+            let cl_name_len = 16 + 2 + 4 + 2; // "Content-Length: " + digits + CRLF (4 digits) + final CRLF
+            let target = 1 + 8192 + rng.below(3) - 1;
+            let hl_est = h.len() + cl_name_len;
+            if target > hl_est + 1000 { bl = target - hl_est; }
+        }
+        if bl > 0 || (abs_bl == 0 && m != "GET" && rng.chance(1, 2)) { h.push_str(&format!("{}: {}\r\n", rng.pick(&["Content-Length", "content-length", "CONTENT-LENGTH"]), bl)); }
         h.push_str("\r\n");
         el.head = h.into_bytes();
         el.dl = el.head.len();
